@@ -57,7 +57,7 @@ class C07(P.Property):
         cuts = sorted(rng.sample(range(1, n), min(ncon - 1, n - 1))) if ncon > 1 else []
         knobs = dict(scheme=scheme, cfg_index=ci, db=db, cuts=cuts, gap=rng.choice([0, 0.5, 1.5]), sse2_spare=rng.choice([0, 3, 10]),
                      net=rng.choice([dict(lo=0.001, hi=0.05), dict(lo=0.001, hi=0.05, seg=3), dict(lo=0.0005, hi=0.004)]),
-                     skew=rng.choice([1.0, 1.0, 2.0]), bufsize=8192, decoy=rng.random() < 0.3, stored_key=rng.choice([None, None, 0, 1, 2]), reuse_scheme=rng.random() < 0.4)
+                     skew=rng.choice([1.0, 1.0, 2.0]), bufsize=8192, decoy=rng.random() < 0.3, stored_key=rng.choice([None, None, 0, 1, 2]), reuse_scheme=rng.choice([None, None, None, "same_key", "other_key", "other_key_big", "same_key_big"]))
         return {"property": "C07", "seed": seed, "knobs": knobs, "steps": steps}
 
     def execute(self, plan):
@@ -137,13 +137,28 @@ class C07(P.Property):
                 # the same scheme object and key served another index before (same keywords, other identifiers); that index is
                 # dropped and collected before the index under test is built -- its answers must not come back
                 probes["scheme_object_reused"] = 1
-                other = {w: [bytes([b ^ 0x5A for b in i[:-1]]) + bytes([i[-1] ^ 0x01 or 0x02]) for i in ids] for w, ids in db.items()}
-                Ed = S.EDBSetup(K, copy.deepcopy(other))
+                mode = plan["knobs"]["reuse_scheme"]
+                other = {w: [bytes(b ^ 0x5A for b in i) for i in ids] for w, ids in db.items()}  # (a bijection on identifiers: lists stay duplicate-free)
+                if mode in ("other_key_big", "same_key_big") and scheme not in ("CGKO06.SSE1", "CGKO06.SSE2"):
+                    # an index of another size class (e.g. pointer widths, level counts differ)
+                    z_ = len(next(iter(db.values()))[0])
+                    other[b"big-other"] = [(7000 + i).to_bytes(z_, "big") for i in range(600)]
+                Kd = K if mode in ("same_key", "same_key_big") else S.KeyGen()
+                Ed = S.EDBSetup(Kd, copy.deepcopy(other))
+                first_answers = {}
                 for w in list(other)[:6]:
-                    S.Search(Ed, S.TokenGen(K, w)).get_result_list()
+                    first_answers[w] = S.Search(Ed, S.TokenGen(Kd, w)).get_result_list()
+            E = S.EDBSetup(K, db)
+            if plan["knobs"].get("reuse_scheme"):
+                # the first index is still there and must still answer as before, although the object has built another one since
+                for w, ans in first_answers.items():
+                    again = S.Search(Ed, S.TokenGen(Kd, w)).get_result_list()
+                    if not same_result(again, other[w]) or not same_result(again, ans):
+                        viol.append(V("C07.repeat", "WRONG_RESULT", f"an index built earlier by the same scheme object answers {len(again)} identifiers for a keyword "
+                                                                    f"with {len(other[w])} after the object built another index", site="local-search-first-index"))
+                        break
                 del Ed
                 world.gc_point()
-            E = S.EDBSetup(K, db)
         except Exception as e:
             out["inconclusive"] = f"setup refused ({type(e).__name__})"
             E = None
@@ -307,7 +322,7 @@ class C07(P.Property):
 
     def simplifications(self, plan):
         k = plan["knobs"]
-        for key, val in (("skew", 1.0), ("net", dict(lo=0.01, hi=0.01)), ("cuts", []), ("gap", 0), ("cfg_index", 0), ("decoy", False), ("stored_key", None), ("reuse_scheme", False)):
+        for key, val in (("skew", 1.0), ("net", dict(lo=0.01, hi=0.01)), ("cuts", []), ("gap", 0), ("cfg_index", 0), ("decoy", False), ("stored_key", None), ("reuse_scheme", None)):
             if k.get(key) != val:
                 yield dict(plan, knobs=dict(k, **{key: val}))
         db = k["db"]
